@@ -32,9 +32,17 @@ def akai_tree(vol_names, file_names):
             for f, fn in enumerate(file_names):
                 n = 12 + g
                 g += 1
-                files.append({"name": fn, "n": n, "chain": [sec], "seq": g})
+                if fn.startswith("prog:"):
+                    # a PROGRAM file (another kind of item, same name space): told apart by the sample name its keygroup refers to
+                    from mcv.gen import akai_program as AP
+                    ref = "ZQ%04d" % g
+                    files.append({"name": fn[5:], "kind": "raw", "ftype": 0xF0, "chain": [sec],
+                                  "data": AP.simple_program(fn[5:], 1, (ref,)).hex()})
+                    vnode["children"].append({"kind": "leaf", "marker": ref})
+                else:
+                    files.append({"name": fn, "n": n, "chain": [sec], "seq": g})
+                    vnode["children"].append({"kind": "leaf", "marker": f"samples_cnt: {n}"})
                 sec += 1
-                vnode["children"].append({"kind": "leaf", "marker": f"samples_cnt: {n}"})
             vols.append({"name": vn, "dir": [d], "files": files})
             pn["children"].append(vnode)
         parts.append({"vols": vols})
@@ -370,7 +378,7 @@ class Check(CheckBase):
     level = "exploration"
     title = "Every item `ls` shows can be addressed by the names shown; other paths say so"
     rule = ("trees whose names come from near-collision / hostile alphabets at every level (AKAI: 2 partitions x volume-name "
-            "pairs x file-name pairs; Roland: volume/performance/sample name pairs; CDDA: title pairs and triples, titles of 19..60 characters in every order of widths, single-entry directories); for every "
+            "pairs x file-name pairs, and volumes holding a sample and a PROGRAM of the same name; Roland: volume/performance/sample name pairs; CDDA: title pairs and triples, titles of 19..60 characters in every order of widths, single-entry directories); for every "
             "node with a non-blank printed name: path of printed names x separator {/,\\,\\\\} x blanks {none, around every "
             "token, around the whole path incl. behind a trailing separator} x trailing separator {no,yes} must print what the canonical path prints, the right item (position-coded "
             "marker per leaf) and sibling names pairwise distinct; AKAI lower-case / colon-less forms may resolve to the right "
@@ -391,6 +399,10 @@ class Check(CheckBase):
         for vols in itertools.product(ad, repeat=2):
             cases.append({"fmt": "akai", "vols": list(vols), "files": ["SMP", "SMP.L"]})
         cases.append({"fmt": "akai", "vols": ["A", "A", "A."], "files": ["A L", "A", "A R", "A"]})
+        # a sample and a program of one volume with the same name (two kinds of items share the volume's name space)
+        for files in (["KICK", "prog:KICK"], ["prog:KICK", "KICK"], ["A", "prog:A", "A"], ["prog:A", "prog:A", "A."],
+                      ["prog:A L", "A L", "A R"], ["prog:P", "Q"]):
+            cases.append({"fmt": "akai", "vols": ["VOL", "VOL B"], "files": files})
         # names wider than the listing's default column (20 characters), in every order of widths: the printed table is the
         # only thing a user can read the names from
         def wide(n, tag):
